@@ -504,6 +504,110 @@ impl BytecodeInterpreterAction {"""),
 ]
 
 
+# ---------------------------------------------------------------- benign changes
+# Semantics-preserving refactorings: the property still holds, so EVERY check must stay
+# silent on them (false-alarm resistance). Run with tools/run_benign.sh.
+B = [
+ ("benign-label-names", "src/bytecode/compiler.rs",
+  """                let consequent_label = label_generator.generate_name("if:consequent")?;
+                let end_label = label_generator.generate_name("if:end")?;""",
+  """                let consequent_label = label_generator.generate_name("L then")?;
+                let end_label = label_generator.generate_name("L_fi")?;"""),
+ ("benign-entry-name", "src/bytecode/compiler.rs",
+  """ProgramObject::from_string("λ:".to_owned())""",
+  """ProgramObject::from_string("main".to_owned())"""),
+ ("benign-constant-order", "src/bytecode/compiler.rs",
+  """                let consequent_label_index =
+                    program.constant_pool.register(ProgramObject::from_str(&consequent_label));
+                let end_label_index =
+                    program.constant_pool.register(ProgramObject::from_str(&end_label));""",
+  """                let end_label_index =
+                    program.constant_pool.register(ProgramObject::from_str(&end_label));
+                let consequent_label_index =
+                    program.constant_pool.register(ProgramObject::from_str(&consequent_label));"""),
+ ("benign-local-slots-have-gaps", "src/bytecode/compiler.rs",
+  """        let index = LocalFrameIndex::from_usize(self.locals.len());
+        let previous = self.locals.insert(key, index);
+        assert!(previous.is_none());
+        Ok(index)""",
+  """        let index = LocalFrameIndex::from_usize(self.locals.len());
+        let previous = self.locals.insert(key, index);
+        assert!(previous.is_none());
+        // reserve a spare slot after every variable (frame sizes grow accordingly)
+        self.locals.insert((usize::MAX - self.locals.len(), String::new()), LocalFrameIndex::from_usize(self.locals.len()));
+        Ok(index)"""),
+ ("benign-error-messages", "src/bytecode/interpreter.rs",
+  """        _ => bail!("Call method error: no method `{}` in object `null`", method_name),""",
+  """        _ => bail!("null does not understand {}", method_name),"""),
+ ("benign-exit-status-and-diagnostics", "src/main.rs",
+  """        evaluate_with_memory_config(&program, self.heap_size, self.heap_log.clone())
+            .expect("Interpreter error")
+    }
+
+    pub fn selected_input(&self) -> Result<NamedSource> {
+        NamedSource::from(self.input.as_ref())
+    }
+}
+
+impl BytecodeInterpreterAction {""",
+  """        if let Err(e) = evaluate_with_memory_config(&program, self.heap_size, self.heap_log.clone()) {
+            eprintln!("fml: run-time error: {:#}", e);
+            std::process::exit(3);
+        }
+    }
+
+    pub fn selected_input(&self) -> Result<NamedSource> {
+        NamedSource::from(self.input.as_ref())
+    }
+}
+
+impl BytecodeInterpreterAction {"""),
+ ("benign-heap-size-model", "src/bytecode/heap.rs",
+  """                size_of::<ArrayInstance>() + array.length() * size_of::<Pointer>()""",
+  """                size_of::<ArrayInstance>() + 8 + array.length() * (size_of::<Pointer>() + 8)"""),
+ ("benign-object-size-ignores-name-lengths", "src/bytecode/heap.rs",
+  """                    object.fields.iter().map(|(string, _pointer)| string.len() + size_of::<Pointer>()).sum();""",
+  """                    object.fields.iter().map(|(_string, _pointer)| 8 + size_of::<Pointer>()).sum();"""),
+ ("benign-address-width", "src/bytecode/program.rs",
+  """        write!(f, "{number:>0width$}", number=self.0, width=4)""",
+  """        write!(f, "{number:>0width$}", number=self.0, width=6)"""),
+ ("benign-then-compiled-before-else", "src/bytecode/compiler.rs",
+  """                active_buffer.emit(OpCode::Branch { label: consequent_label_index } );
+                (**alternative).compile_into(program, active_buffer, global_environment, current_frame, keep_result)?;
+                active_buffer.emit(OpCode::Jump { label: end_label_index } );
+                active_buffer.emit(OpCode::Label { name: consequent_label_index });
+                //program.labels.set(consequent_label, program.code.current_address())?;
+                (**consequent).compile_into(program, active_buffer, global_environment, current_frame, keep_result)?;
+                active_buffer.emit(OpCode::Label { name: end_label_index });""",
+  """                // layout: branch THEN; goto ELSE; THEN: then; goto END; ELSE: else; END:
+                let else_label = label_generator.generate_name("if:alternative")?;
+                let else_label_index = program.constant_pool.register(ProgramObject::from_str(&else_label));
+                active_buffer.emit(OpCode::Branch { label: consequent_label_index } );
+                active_buffer.emit(OpCode::Jump { label: else_label_index } );
+                active_buffer.emit(OpCode::Label { name: consequent_label_index });
+                (**consequent).compile_into(program, active_buffer, global_environment, current_frame, keep_result)?;
+                active_buffer.emit(OpCode::Jump { label: end_label_index } );
+                active_buffer.emit(OpCode::Label { name: else_label_index });
+                (**alternative).compile_into(program, active_buffer, global_environment, current_frame, keep_result)?;
+                active_buffer.emit(OpCode::Label { name: end_label_index });"""),
+ ("benign-print-flushes-per-call", "src/bytecode/state.rs",
+  """        match std::io::stdout().write_all(s.as_bytes()) {
+            Ok(_) => Ok(()),""",
+  """        match std::io::stdout().write_all(s.as_bytes()).and_then(|_| std::io::stdout().flush()) {
+            Ok(_) => Ok(()),"""),
+ ("benign-compound-array-temporaries-renamed", "src/bytecode/compiler.rs",
+  """                        let i_id = Identifier::from(format!("::i_{}", unique_number));
+                        let size_id = Identifier::from(format!("::size_{}", unique_number));
+                        let array_id = Identifier::from(format!("::array_{}", unique_number));""",
+  """                        let i_id = Identifier::from(format!("%index{}", unique_number));
+                        let size_id = Identifier::from(format!("%len{}", unique_number));
+                        let array_id = Identifier::from(format!("%arr{}", unique_number));"""),
+ ("benign-yaml-written-with-document-end", "src/main.rs",
+  """            ASTSerializer::YAML  => serde_yaml::to_string(&ast)?,""",
+  """            ASTSerializer::YAML  => format!("{}\n...", serde_yaml::to_string(&ast)?.trim_end()),"""),
+]
+
+
 def build_patch(scratch, name, file, old, new):
     path = os.path.join(scratch, file)
     src = open(path, encoding="utf-8").read()
@@ -527,7 +631,8 @@ def main():
         idx_path = os.path.join(OUT, "INDEX.json")
         if os.path.exists(idx_path):
             index = json.load(open(idx_path))
-        for m in M:
+        cat = [(n, ["ALL"], f, o, w) for (n, f, o, w) in B] if "--benign" in sys.argv else M
+        for m in cat:
             name, owners, file, old, new = m[:5]
             if only and name not in only:
                 continue
@@ -548,7 +653,9 @@ def main():
                 print(f"{name}: {status}")
                 if not ok:
                     print("   ", r.stdout.strip().splitlines()[-1] if r.stdout.strip() else "")
-            open(os.path.join(OUT, name + ".patch"), "w").write(patch)
+            sub = os.path.join(OUT, "benign") if "--benign" in sys.argv else OUT
+            os.makedirs(sub, exist_ok=True)
+            open(os.path.join(sub, name + ".patch"), "w").write(patch)
             index[name] = {"owners": owners, "file": file, "status": status}
         json.dump(index, open(idx_path, "w"), indent=1, sort_keys=True)
     finally:
